@@ -1,6 +1,6 @@
 """C01 rendered SQL preserves the meaning of the expression tree (engine I).
 
-Every well-typed expression tree with exactly n operator nodes (every shape; 56 typed operator signatures:
+Every well-typed expression tree with exactly n operator nodes (every shape; 46 typed operator signatures:
 + - * / // % unary-, ||, = != < <= > >=, IS [NOT] NULL, IS [NOT] DISTINCT FROM, [NOT] BETWEEN, [NOT] LIKE, ILIKE,
 [NOT] IN (expressions / expanding bind), AND OR NOT, CASE, CAST, correlated scalar subquery; operands numeric,
 text, boolean) is built twice on the real expression language -- naturally, and with every operand of every node
@@ -22,7 +22,9 @@ wrapped in an explicit parenthesis (negation as plain ``NOT (x)``) -- and
 Leaves: canonically distinct columns, plus one pass per leaf replaced by each literal (NULL, -2, 0, 1, 3, '', 'a',
 true, false).
 
-Mutations caught (each on a private copy of lib/, ``VF_REPO=/tmp/wt-sqlsem ./check C01``): see MUTATIONS below.
+Mutations caught: (each on a private copy of lib/, ``VF_REPO=/tmp/wt-sqlsem ./check C01``) changed _PRECEDENCE entry;
+is_precedent <=/< swap; wrong negate pairing; dropped self_group in UnaryExpression; non-associative - flattened; sqlite
+truediv override losing its parenthesis; wrong operator string -- details in MUTATIONS below.
 """
 from __future__ import annotations
 
@@ -40,6 +42,15 @@ from ..worlds import sqlworld as W
 ID = "C01"
 LEVEL = "exploration"
 MUTATIONS = """
+Mutations caught (each alone, on a private copy of lib/; every one produced new VIOLATION signatures on top of the
+genuine findings of the unchanged tree):
+ * operators.py _PRECEDENCE: mul 8 -> 6                      (a + b) * c rendered a + b * c
+ * operators.py is_precedent: <= -> <                         a - (b - c) rendered a - b - c, (a = b) = c ...
+ * default_comparator.py: lt's negate_op ge -> gt             NOT (a < b) rewritten to a > b
+ * elements.py UnaryExpression.__init__: self_group dropped   -(a + b) rendered -a + b
+ * operators.py _associative: + sub                           a - (b - c) flattened to a - b - c
+ * sqlite/base.py visit_truediv_binary: "(%s + 0.0)" -> "%s + 0.0"   caught by the 3VL meaning oracle (both renderings wrong alike)
+ * compiler.py OPERATORS[le] " <= " -> " < "                  caught via NOT (a > b) -> a <= b and by the meaning oracle
 """
 META = dict(
     engine="I",
@@ -47,7 +58,7 @@ META = dict(
     "emitted-vs-fully-parenthesised SQL executed on SQLite per row; 3VL reference evaluator in lock-step; reference-grammar "
     "parse (per-backend precedence tables) for the non-executable dialects",
     design_ref="DESIGN.md §5 C01",
-    level_text="All well-typed trees with <=2 (quick) / <=3 (thorough) operator nodes over 56 typed operator signatures, "
+    level_text="All well-typed trees with <=2 (quick) / <=3 (thorough; 4 with column leaves only) operator nodes over 46 typed operator signatures, "
     "every shape, canonical distinct column leaves plus every single-leaf literal replacement, are compiled by the real "
     "compiler and *executed* on SQLite next to their fully parenthesised rendering on every row of a cross-product "
     "table; grouping, precedence, associative flattening and negation rewriting are decisions about parent/child/"
@@ -66,7 +77,7 @@ META = dict(
     ],
     bounds=dict(
         quick="all typed trees with <=2 operator nodes x (column leaves + every single literal replacement); every row; 5 grammars",
-        thorough="all typed trees with <=3 operator nodes x (column leaves + every single literal replacement); every row; 5 grammars on column-leaf and boolean-literal trees",
+        thorough="all typed trees with <=3 operator nodes x (column leaves + every single literal replacement), every row, 5 grammars on column-leaf and boolean-literal trees; plus all typed trees with exactly 4 operator nodes with column leaves (1 034 478 trees), SQLite-executed oracles only",
     ),
 )
 SHARD_TIMEOUT = dict(quick=300, thorough=1500)
@@ -101,8 +112,8 @@ def _dialect(name):
 
 def bounds(tier):
     if tier == "quick":
-        return dict(nmax=2, lit_n=2, litmode_n=2, parse_lit_n=2, quick=True)
-    return dict(nmax=3, lit_n=3, litmode_n=2, parse_lit_n=2, quick=False)
+        return dict(nmax=2, lit_n=2, litmode_n=2, parse_lit_n=2, parse_n=2, quick=True)
+    return dict(nmax=4, lit_n=3, litmode_n=2, parse_lit_n=2, parse_n=3, quick=False)
 
 
 def shards(tier, seed):
@@ -110,8 +121,8 @@ def shards(tier, seed):
     out = []
     for n in range(1, b["nmax"] + 1):
         for typ in TYPES:
-            cnt = len(W.trees(n, typ))
-            parts = max(1, min(96 if n >= 3 else 8, cnt // 30))
+            cnt = W.count_trees(n, typ)
+            parts = max(1, min(256 if n >= 4 else 96 if n == 3 else 40, cnt // (30 if n >= 3 else 12)))
             for p in range(parts):
                 out.append([n, typ, p, parts])
     return out
@@ -241,7 +252,7 @@ def _errtext(ex):
 # ------------------------------------------------------------------ oracles (1) (2) (4) and sqlite conformance
 
 
-def _check_one_sqlite(conn, ast, world, want_conf, want_lit, rec):
+def _check_one_sqlite(conn, ast, world, want_conf, want_lit, rec, meaning=True):
     """slow path: one tree at a time, each rendering in its own statement"""
     out = []
     vals = {}
@@ -262,7 +273,7 @@ def _check_one_sqlite(conn, ast, world, want_conf, want_lit, rec):
         (which, msg), = errs.items()
         out.append((ast, "error", "%s rendering fails (%s) while the other executes" % (which, msg)))
         return out
-    _compare(ast, world, vals["emitted"], vals["grouped"], out, rec)
+    _compare(ast, world, vals["emitted"], vals["grouped"], out, rec, meaning)
     if want_conf:
         _conformance(ast, world, vals["emitted"])
     if want_lit:
@@ -275,7 +286,7 @@ def _check_one_sqlite(conn, ast, world, want_conf, want_lit, rec):
     return out
 
 
-def _compare(ast, world, ev, gv, out, rec):
+def _compare(ast, world, ev, gv, out, rec, meaning=True):
     wrows = W.rows(world)
     for i in range(len(ev)):
         if not _same(ev[i], gv[i]):
@@ -284,14 +295,14 @@ def _compare(ast, world, ev, gv, out, rec):
     cols = sql3vl.columns_of(ast)
     vals, idx = _projection(world, cols)
     f = sql3vl.compile_ast(ast)
-    exp = [sql3vl.to_backend(f(v)) for v in vals]
-    for i in range(len(gv)):
+    exp = [sql3vl.to_backend(f(v)) for v in vals] if meaning else []
+    for i in range(len(gv) if meaning else 0):
         if not _same(gv[i], exp[idx[i]]):
             out.append((ast, "meaning", "row %r: fully parenthesised SQL on SQLite -> %r, 3VL evaluation of the tree -> %r" % (_rowdesc(wrows[i], ast), gv[i], exp[idx[i]])))
             break
     if rec is not None:
         rec.count("rows_compared", len(ev))
-        rec.count("evaluator_vs_sqlite_rows", len(gv))
+        rec.count("evaluator_vs_sqlite_rows", len(gv) if meaning else 0)
         rec.outcome(tuple(gv))
 
 
@@ -363,7 +374,7 @@ def check_sqlite(conn, asts, quick, rec=None, conf=(), lit=()):
     for ast in asts:
         world = W.world_for(sql3vl.columns_of(ast), quick)
         if _uses_floor(ast):
-            out.extend(_check_one_sqlite(conn, ast, world, False, False, rec))
+            out.extend(_check_one_sqlite(conn, ast, world, False, False, rec, meaning=False))
             continue
         by_world.setdefault(world, []).append(ast)
     for world, group in by_world.items():
@@ -560,46 +571,54 @@ def _replace(ast, path, new):
 _CANON_COL = {"N": ("col", "a"), "S": ("col", "s"), "B": ("col", "p")}
 
 
+def _in_literal_list(root, path):
+    """path points into the fixed literal list of an expanding-IN node"""
+    if not path:
+        return False
+    parent = root
+    for i in path[:-1]:
+        parent = sql3vl.children(parent)[i]
+    return parent[0] in ("in", "not_in") and path[-1] >= 1 and all(c[0] == "lit" for c in parent[2:])
+
+
 def minimise(ast, fails):
-    """(minimal tree, generic literal paths).  1. smallest failing sub-tree; 2. operator operands replaced by a
-    column / a literal leaf while the failure persists; 3. literals replaced by columns where the failure does not
-    need a literal; remaining literals whose value is irrelevant are marked generic."""
+    """(minimal tree, generic literal paths).  To a fixpoint: literals replaced by columns where the failure does not
+    need a literal; smallest failing sub-tree; a node replaced by one of its operands of the same type; an operator
+    operand replaced by a column / literal leaf.  Remaining literals whose value is irrelevant are marked generic."""
     best = ast
-    for s in sorted(_subtrees(ast, []), key=sql3vl.size):
-        if s is ast:
-            break
-        if fails(s):
-            best = s
-            break
     changed = True
     while changed:
         changed = False
         for path, node in list(_paths(best)):
-            if not path or node[0] in ("col", "lit"):
-                continue
-            if best[0] in ("in", "not_in") and path[0] >= 1 and all(c[0] == "lit" for c in best[2:]):
+            if node[0] == "lit" and path and not _in_literal_list(best, path):
+                cand = _replace(best, path, _CANON_COL[node[2]])
+                if fails(cand):
+                    best, changed = cand, True
+        for sub in sorted(_subtrees(best, []), key=sql3vl.size):
+            if sub is best:
+                break
+            if fails(sub):
+                best, changed = sub, True
+                break
+        if changed:
+            continue
+        for path, node in list(_paths(best)):
+            if node[0] in ("col", "lit") or _in_literal_list(best, path):
                 continue
             ty = sql3vl.type_of(node, W.COLTYPES)
-            for leaf in [_CANON_COL[ty]] + W.LITERALS[ty]:
-                cand = _replace(best, path, leaf)
-                if fails(cand):
-                    best = cand
-                    changed = True
+            cands = [c for c in sql3vl.children(node) if c[0] != "lit" and sql3vl.type_of(c, W.COLTYPES) == ty]
+            if path:
+                cands += [_CANON_COL[ty]] + W.LITERALS[ty]
+            for c in cands:
+                cand = _replace(best, path, c)
+                if cand != best and cand[0] not in ("col", "lit") and fails(cand):
+                    best, changed = cand, True
                     break
             if changed:
                 break
     generic = set()
     for path, node in list(_paths(best)):
-        if node[0] != "lit" or not path:
-            continue
-        parent = best
-        for i in path[:-1]:
-            parent = sql3vl.children(parent)[i]
-        if parent[0] in ("in", "not_in") and path[-1] >= 1 and all(c[0] == "lit" for c in parent[2:]):
-            continue  # the fixed literal list of the expanding-IN forms
-        cand = _replace(best, path, _CANON_COL[node[2]])
-        if fails(cand):
-            best = cand
+        if node[0] != "lit" or not path or _in_literal_list(best, path):
             continue
         others = [l for l in W.LITERALS[node[2]] if l != node]
         if others and all(fails(_replace(best, path, o)) for o in others):
@@ -648,7 +667,7 @@ def run_shard(shard, tier, rec):
     b = bounds(tier)
     quick = b["quick"]
     conn = _conn()
-    base = W.trees(n, typ)
+    base = W.trees(n, typ) if n <= 3 else W.iter_trees(n, typ)
     pending = []
     conf = set()
     lit = set()
@@ -676,7 +695,7 @@ def run_shard(shard, tier, rec):
             rec.case(v, nontrivial=nontrivial)
             pending.append(v)
             is_base = v is ast
-            if is_base or n <= b["parse_lit_n"] or _has_bool_literal_only(v):
+            if n <= b["parse_n"] and (is_base or n <= b["parse_lit_n"] or _has_bool_literal_only(v)):
                 conf.add(v)
             if _has_literal(v) and n <= b["litmode_n"]:
                 lit.add(v)
